@@ -1133,3 +1133,90 @@ MUTANTS += [
         }
         self.persist_on_policy()?;""")]),
 ]
+
+MUTANTS += [
+    dict(name='batch_payload_bytes_not_appended', props=['C01', 'C07'], rules=['CD8'], desc='the batch encoder writes position and length of each payload but not its bytes',
+         edits=[(REC, '                output.extend_from_slice(record_payload.chunk());\n', '')]),
+    dict(name='queue_len_check_rejects_equal', props=['C01', 'C07'], rules=['CD10'], desc='the queue-name length check rejects a name that ends exactly at the end of the entry (every entry without payload)',
+         edits=[(REC, '        if body.len() < queue_len {', '        if body.len() <= queue_len {')]),
+    dict(name='batch_item_len_check_rejects_equal', props=['C01', 'C07'], rules=['CD10'], desc='the batch item length check rejects the last record of every batch',
+         edits=[(REC, '        if buffer.len() < len {', '        if buffer.len() <= len {')]),
+    dict(name='spare_buffer_not_cleared', props=['C01', 'C07'], rules=['CD11'], desc='the batch encoder no longer clears the reused spare buffer',
+         edits=[(REC, '        output.clear();\n        for (position, mut record_payload) in record_payloads {', '        for (position, mut record_payload) in record_payloads {')]),
+    dict(name='writer_buffer_never_cleared', props=['C01', 'C07'], rules=['CD11'], desc='neither the record writer nor the entry encoder clears the reused scratch buffer',
+         edits=[(RWR, '        self.buffer.clear();\n', ''), (REC, '    fn serialize(&self, buffer: &mut Vec<u8>) {\n        buffer.clear();\n        match *self {', '    fn serialize(&self, buffer: &mut Vec<u8>) {\n        match *self {')]),
+]
+
+REFACTORS += [
+    dict(name='writer_clear_only_in_encoder', desc='the record writer relies on the encoder clearing the scratch buffer',
+         edits=[(RWR, '        self.buffer.clear();\n', '')]),
+    dict(name='encoder_clear_only_in_writer', desc='the entry encoder relies on the record writer clearing the scratch buffer',
+         edits=[(REC, '    fn serialize(&self, buffer: &mut Vec<u8>) {\n        buffer.clear();\n        match *self {', '    fn serialize(&self, buffer: &mut Vec<u8>) {\n        match *self {')]),
+    dict(name='spare_buffer_cleared_by_caller', desc='append_records clears the spare buffer itself, the batch encoder no longer does',
+         edits=[(REC, '        output.clear();\n        for (position, mut record_payload) in record_payloads {', '        for (position, mut record_payload) in record_payloads {'),
+                (MRL, '        MultiRecord::serialize(payloads, position, &mut multi_record_spare_buffer);', '        multi_record_spare_buffer.clear();\n        MultiRecord::serialize(payloads, position, &mut multi_record_spare_buffer);')]),
+    dict(name='queue_name_split_at_checked', desc='the queue name is cut with split_at_checked instead of an explicit comparison',
+         edits=[(REC, """        if body.len() < queue_len {
+            error!(
+                queue_len = queue_len,
+                body_len = body.len(),
+                "record body too short"
+            );
+            return None;
+        }
+        let (queue_bytes, payload) = body.split_at(queue_len);""", """        let Some((queue_bytes, payload)) = body.split_at_checked(queue_len) else {
+            error!(
+                queue_len = queue_len,
+                body_len = body.len(),
+                "record body too short"
+            );
+            return None;
+        };""")]),
+    dict(name='batch_item_len_gt_form', desc='the batch item length check written as `len > buffer.len()`',
+         edits=[(REC, '        if buffer.len() < len {', '        if len > buffer.len() {')]),
+]
+
+MUTANTS += [
+    dict(name='mem_create_rejects_when_absent', props=['C13'], rules=['QX4'], desc='the queue map rejects create_queue when the queue is NOT there (and overwrites it when it is)',
+         edits=[(QS, '        if self.queues.contains_key(queue) {\n            return Err(AlreadyExists);', '        if !self.queues.contains_key(queue) {\n            return Err(AlreadyExists);')]),
+    dict(name='mem_delete_rejects_when_present', props=['C13'], rules=['QX4'], desc='the queue map reports MissingQueue when the removal found the queue',
+         edits=[(QS, '        if self.queues.remove(queue).is_none() {', '        if self.queues.remove(queue).is_some() {')]),
+]
+
+REFACTORS += [
+    dict(name='mem_create_via_entry', desc='the queue map creates through the entry API',
+         edits=[(QS, """        if self.queues.contains_key(queue) {
+            return Err(AlreadyExists);
+        }
+        self.queues.insert(queue.to_string(), MemQueue::default());
+        Ok(())""", """        match self.queues.entry(queue.to_string()) {
+            std::collections::hash_map::Entry::Occupied(_) => Err(AlreadyExists),
+            std::collections::hash_map::Entry::Vacant(vacant) => {
+                vacant.insert(MemQueue::default());
+                Ok(())
+            }
+        }""")]),
+    dict(name='mem_delete_via_match', desc='the queue map deletes with a match on the removal result',
+         edits=[(QS, """        if self.queues.remove(queue).is_none() {
+            warn!(queue = queue, "attempted to remove a non-existing queue");
+            return Err(MissingQueue(queue.to_string()));
+        }
+        Ok(())""", """        match self.queues.remove(queue) {
+            Some(_) => Ok(()),
+            None => {
+                warn!(queue = queue, "attempted to remove a non-existing queue");
+                Err(MissingQueue(queue.to_string()))
+            }
+        }""")]),
+]
+
+MUTANTS += [
+    dict(name='tracker_built_when_empty', props=['C10', 'C01'], rules=['FT1'], desc='from_file_numbers returns None for a non-empty list and an empty tracker for an empty one',
+         edits=[(FNUM, '        if file_numbers.is_empty() {\n            return None;', '        if !file_numbers.is_empty() {\n            return None;')]),
+]
+
+REFACTORS += [
+    dict(name='tracker_new_literal', desc='FileTracker::new builds the one-file set directly; from_file_numbers tests len() == 0',
+         edits=[(FNUM, '        FileTracker::from_file_numbers(vec![0]).unwrap()', '        let mut files = BTreeSet::new();\n        files.insert(FileNumber::new(0));\n        FileTracker { files }'),
+                (FNUM, '        if file_numbers.is_empty() {\n            return None;', '        if file_numbers.len() == 0 {\n            return None;')]),
+]
